@@ -289,7 +289,13 @@ class Inliner:
         new_body = conv(body)
         res = pre + new_body
         for s in res:
-            ast.copy_location(s, stmt)
+            # every node of the inlined code is located at the call it replaces (its own lines belong to the helper's definition)
+            for n_ in ast.walk(s):
+                if isinstance(n_, (ast.expr, ast.stmt, ast.excepthandler, ast.arg, ast.keyword, ast.alias, ast.pattern)) or hasattr(n_, "lineno"):
+                    n_.lineno = getattr(stmt, "lineno", 1)
+                    n_.end_lineno = getattr(stmt, "lineno", 1)
+                    n_.col_offset = getattr(stmt, "col_offset", 0)
+                    n_.end_col_offset = getattr(stmt, "col_offset", 0)
             ast.fix_missing_locations(s)
         return res or [ast.copy_location(ast.Pass(), stmt)]
 
@@ -523,7 +529,11 @@ class Inliner:
                     if e is not None:
                         changed = True
                         outer.inlined.append((qual, h.name))
-                        return ast.copy_location(e, n)
+                        for x_ in ast.walk(e):
+                            if hasattr(x_, "lineno") or isinstance(x_, ast.expr):
+                                x_.lineno, x_.end_lineno = n.lineno, getattr(n, "end_lineno", n.lineno)
+                                x_.col_offset, x_.end_col_offset = n.col_offset, getattr(n, "end_col_offset", n.col_offset)
+                        return e
                 return n
 
         E().visit(host)
